@@ -66,6 +66,9 @@ def cells_for(decl, payload, allowed_name, tier="quick"):
     fixed = decl["fmt"] == "fixed"
     cells = ["", " ", "   "]
     variants = [payload, payload[:-1], payload + payload[-1], payload[:1]]
+    if decl["type"] in ("Integer", "Decimal"):
+        # longer or shorter texts that denote a number the rule accepts: only their number of characters is wrong
+        variants += ["0" + payload, "00" + payload, "+" + payload, "-0" + payload[1:], "0" + payload[:-2]]
     if fixed:
         width = decl["width"]
         cells.append(" " * width)
